@@ -170,6 +170,14 @@ pub fn profile_weights(name: &str) -> Weights {
             retract_check: 5,
             ..base
         },
+        "progress2" => Weights {
+            open: 5,
+            submit: 14,
+            lost: 4,
+            advance: 4,
+            retract_check: 4,
+            ..base
+        },
         "placement2" => Weights {
             connect: 8,
             lost: 4,
@@ -264,6 +272,9 @@ pub enum Action {
     Sched,
     EndTask { exec: u32, finish: bool },
     Advance { secs: u64 },
+    /// time passes until a time-limited worker has only 150 s left (the window in which the
+    /// worker gives back tasks whose time request it cannot serve any more)
+    AdvanceNearLimit { worker: WorkerId },
     RetractCheck { worker: WorkerId },
     IdleStop { worker: WorkerId },
     Lost { worker: WorkerId, heartbeat: bool },
@@ -466,7 +477,7 @@ impl Sim {
                 sub(c2, 3, palette::N_WORKER_PALETTE)
             };
             if self.genv >= 1
-                && matches!(self.profile.as_str(), "placement2" | "steal2")
+                && matches!(self.profile.as_str(), "placement2" | "steal2" | "progress2")
                 && sub(c2, 19, 4) == 0
             {
                 // workers with a time limit
@@ -567,6 +578,26 @@ impl Sim {
                 secs: [3, 40, 130, 330, 1100][sub(c2, 13, 5)],
             },
         ));
+        if self.genv >= 1 {
+            let near: Vec<WorkerId> = world
+                .snapshot()
+                .workers
+                .iter()
+                .filter(|x| {
+                    x.remaining.is_some_and(|r| r > Duration::from_secs(250))
+                        && world.workers.get(&x.id).is_some_and(|y| y.alive)
+                })
+                .map(|x| x.id)
+                .collect();
+            if !near.is_empty() {
+                out.push((
+                    w.advance,
+                    Action::AdvanceNearLimit {
+                        worker: near[sub(c2, 21, near.len())],
+                    },
+                ));
+            }
+        }
         if w.launch_fail > 0 {
             // mark a not-yet-started task so that its launch fails
             let snap = world.snapshot();
@@ -1058,6 +1089,24 @@ impl Sim {
                 self.world.advance_time(Duration::from_secs(secs)).await;
                 format!("advance {secs}s")
             }
+            Action::AdvanceNearLimit { worker } => {
+                let rem = self
+                    .world
+                    .snapshot()
+                    .workers
+                    .iter()
+                    .find(|x| x.id == worker)
+                    .and_then(|x| x.remaining);
+                match rem {
+                    Some(r) if r > Duration::from_secs(250) => {
+                        let d = r - Duration::from_secs(150);
+                        self.world.advance_time(d).await;
+                        self.obs.borrow_mut().class("near-time-limit");
+                        format!("advance {}s (w{worker} has 150 s left)", d.as_secs())
+                    }
+                    _ => format!("advance-near-limit w{worker}: nothing"),
+                }
+            }
             Action::RetractCheck { worker } => {
                 if let Some(w) = self.world.workers.get(&worker) {
                     if w.alive {
@@ -1488,7 +1537,7 @@ impl Sim {
             return Some(14 + sub(arg, 192, 3));
         }
         // tasks with a time request (they meet workers with a time limit, see `enabled`)
-        if matches!(self.profile.as_str(), "placement2" | "steal2") && sub(arg, 193, 5) == 0 {
+        if matches!(self.profile.as_str(), "placement2" | "steal2" | "progress2") && sub(arg, 193, 5) == 0 {
             return Some(10);
         }
         Some(sub(arg, 22, palette::N_RQ_PALETTE_V1))
